@@ -144,15 +144,22 @@ def _refresh_effect(s):
     return s
 
 
-def shrink(P, still_fails, max_rounds=40, batch=48):
-    """still_fails(list of Prog) -> list of bool.  Greedy: take the first failing candidate."""
+def shrink(P, still_fails, max_rounds=40, batch=48, budget_s=None):
+    """still_fails(list of Prog) -> list of bool.  Greedy: take the first failing candidate.
+    budget_s: wall-clock budget; shrinking stops (keeping the best so far) when it is used up."""
+    import time
+    t0 = time.time()
     cur = P
     for _ in range(max_rounds):
+        if budget_s is not None and time.time() - t0 > budget_s:
+            break
         cands = candidates(cur)
         if not cands:
             break
         found = None
         for i in range(0, len(cands), batch):
+            if budget_s is not None and time.time() - t0 > budget_s:
+                break
             chunk = cands[i:i + batch]
             try:
                 flags = still_fails(chunk)
